@@ -9,5 +9,10 @@ from tools.extract import run_all
 
 with framework.Lock():
     print(run_all.main())
+    props = sorted(f[:-5] for f in os.listdir(os.path.join(ROOT, 'lean', 'MindsVerif', 'Props')) if f.endswith('.lean'))
+    root = ''.join('import MindsVerif.Props.%s\n' % p for p in props)
+    rp = os.path.join(ROOT, 'lean', 'MindsVerif.lean')
+    if not os.path.exists(rp) or open(rp).read() != root:
+        open(rp, 'w').write(root)
     p = subprocess.run(['lake', 'build', 'MindsVerif'], cwd=os.path.join(ROOT, 'lean'))
     sys.exit(p.returncode)
